@@ -453,6 +453,21 @@ impl Symbol {
             SymbolOctetsError(SymbolOctetsEnum::ShortInput)
         }
 
+        /// Makes a symbol from a code point decoded from `len` octets.
+        ///
+        /// Fails if the code point is not a character or if it has a
+        /// shorter encoding, i.e., the sequence was overlong.
+        #[inline]
+        fn decoded_char(
+            code: u32,
+            len: usize,
+        ) -> Result<Symbol, SymbolOctetsError> {
+            match char::try_from(code) {
+                Ok(ch) if ch.len_utf8() == len => Ok(Symbol::Char(ch)),
+                _ => Err(bad_utf8()),
+            }
+        }
+
         let c1 = match octets.get(pos) {
             Some(c1) => *c1,
             None => return Ok(None),
@@ -531,12 +546,11 @@ impl Symbol {
             // If c1’s third-to-left bit is 0, we have the two octet case.
             if c1 & 0b0010_0000 == 0 {
                 return Ok(Some((
-                    Symbol::Char(
-                        (u32::from(c2 & 0b0011_1111)
-                            | (u32::from(c1 & 0b0001_1111) << 6))
-                            .try_into()
-                            .map_err(|_| bad_utf8())?,
-                    ),
+                    decoded_char(
+                        u32::from(c2 & 0b0011_1111)
+                            | (u32::from(c1 & 0b0001_1111) << 6),
+                        2,
+                    )?,
                     pos,
                 )));
             }
@@ -554,13 +568,12 @@ impl Symbol {
             // If c1’s fourth-to-left bit is 0, we have the three octet case.
             if c1 & 0b0001_0000 == 0 {
                 return Ok(Some((
-                    Symbol::Char(
-                        (u32::from(c3 & 0b0011_1111)
+                    decoded_char(
+                        u32::from(c3 & 0b0011_1111)
                             | (u32::from(c2 & 0b0011_1111) << 6)
-                            | (u32::from(c1 & 0b0001_1111) << 12))
-                            .try_into()
-                            .map_err(|_| bad_utf8())?,
-                    ),
+                            | (u32::from(c1 & 0b0001_1111) << 12),
+                        3,
+                    )?,
                     pos,
                 )));
             }
@@ -576,14 +589,13 @@ impl Symbol {
             }
 
             Ok(Some((
-                Symbol::Char(
-                    (u32::from(c4 & 0b0011_1111)
+                decoded_char(
+                    u32::from(c4 & 0b0011_1111)
                         | (u32::from(c3 & 0b0011_1111) << 6)
                         | (u32::from(c2 & 0b0011_1111) << 12)
-                        | (u32::from(c1 & 0b0000_1111) << 18))
-                        .try_into()
-                        .map_err(|_| bad_utf8())?,
-                ),
+                        | (u32::from(c1 & 0b0000_1111) << 18),
+                    4,
+                )?,
                 pos,
             )))
         }
